@@ -38,6 +38,59 @@ def guards(node, pm, stop=None):
             out.append((par.test, True))
         elif isinstance(par, ast.IfExp) and field in ('body', 'orelse'):
             out.append((par.test, field == 'body'))
+    return [(_flag_test(t, node, pm), pol) for t, pol in out]
+
+
+def _flag_test(test, node, pm):
+    """a guard that is a bare local flag (`first = i == 0` ... `if first:`) reads as the comparison that defines the flag, when the
+    flag is assigned once in the function, in a block that encloses the guarded node, and what the comparison reads is not
+    assigned between the two (loop variables of loops enclosing both, parameters, once-assigned locals)."""
+    if not isinstance(test, ast.Name):
+        return test
+    root = node
+    chain = [node]
+    while root in pm:
+        root = pm[root]
+        chain.append(root)
+        if isinstance(root, (ast.FunctionDef, ast.AsyncFunctionDef)):
+            break
+    assigns = {}
+    for n in ast.walk(root):
+        if isinstance(n, (ast.Assign, ast.AugAssign, ast.AnnAssign)):
+            for t in (n.targets if isinstance(n, ast.Assign) else [n.target]):
+                for m in (t.elts if isinstance(t, (ast.Tuple, ast.List)) else [t]):
+                    while isinstance(m, (ast.Subscript, ast.Attribute, ast.Starred)):      # a store into x[i] changes x, not i
+                        m = m.value
+                    if isinstance(m, ast.Name):
+                        assigns.setdefault(m.id, []).append(n)
+        elif isinstance(n, (ast.For, ast.comprehension)):
+            for m in ast.walk(n.target):
+                if isinstance(m, ast.Name):
+                    assigns.setdefault(m.id, []).append(n)
+    ds = assigns.get(test.id, [])
+    if len(ds) != 1 or not isinstance(ds[0], ast.Assign) or len(ds[0].targets) != 1 or not isinstance(ds[0].targets[0], ast.Name):
+        return test
+    d = ds[0]
+    if not isinstance(d.value, (ast.Compare, ast.BoolOp, ast.UnaryOp)) or any(isinstance(m, ast.Call) for m in ast.walk(d.value)):
+        return test
+    # the definition sits directly in a block of a construct enclosing the node
+    if pm.get(d) not in chain:
+        return test
+    for nm in names_read(d.value):
+        for a in assigns.get(nm, []):
+            if isinstance(a, ast.For):
+                if a not in chain or pm.get(d) is not a and a not in _chain_of(d, pm):
+                    return test
+            elif len(assigns[nm]) != 1:
+                return test
+    return d.value
+
+
+def _chain_of(n, pm):
+    out = []
+    while n in pm:
+        n = pm[n]
+        out.append(n)
     return out
 
 
